@@ -379,7 +379,7 @@ def main(argv=None):
                 dropped |= prune
                 continue
             off = offending_functions(tool, info)
-            if not off - opaque - external - behavioural or all(f.oid is None and not f.lines for f in tool):
+            if not off - external or all(f.oid is None and not f.lines for f in tool):
                 # no usable location (e.g. an internal error of the verifier): suspect the functions that are new or whose
                 # body differs from the baseline the contracts were written against
                 off = off | (changed_functions(info) - external)
